@@ -1000,6 +1000,7 @@ func c19Props(r *Run, ps gts.Props, name string) {
 // ---------------------------------------------------------------------------
 
 func propC19(r *Run) {
+	defer c19CliSelect(r)
 	thorough := r.tier == "thorough"
 	r.exhaustive = true
 
